@@ -28,7 +28,7 @@ LEVEL = "exploration"
 RUNS = {"quick": 30000, "thorough": 800000}
 WALL = {"quick": 240, "thorough": 1500}
 PARTITIONS = [{"name": "default", "env": {}}]
-FAULT_KINDS = ["refused_fill_midstream", "extreme_magnitude", "reorder", "batch_split", "interleave", "axis_point", "origin_point", "signed_zero", "outside_radius",
+FAULT_KINDS = ["adaptive_axis_growth", "refused_fill_midstream", "extreme_magnitude", "reorder", "batch_split", "interleave", "axis_point", "origin_point", "signed_zero", "outside_radius",
                "wrong_dimension_probe", "projection", "transformed_path"]
 RULE = ("one run = one special class (polar, radial 2-D/3-D, azimuthal, spherical, spherical-surface, cylindrical) "
         "over seeded bins, a stream of <= 24 Cartesian points drawn from axis/origin/signed-zero/quadrant pools, and "
@@ -143,6 +143,10 @@ def generate(rng, seed, part):
         ops.append({"op": "projection", "r": rng.randrange(k), "arg": rng.randrange(16),
                     # the axes may carry the user's own names, be addressed by name, and a projection be projected again
                     "rename": rng.random() < 0.3, "by_name": rng.random() < 0.3, "again": rng.randrange(4)})
+    if klass in ("polar", "spherical", "cylindrical", "radial2", "radial3") and rng.random() < 0.3:
+        # the same entry-path agreement on a histogram whose radial axis is adaptive and has to grow for the point
+        for _ in range(rng.randint(1, 3)):
+            ops.append({"op": "adaptive_entry", "r": 0, "i": rng.randrange(n), "stretch": rng.choice([3.0, 7.5, 12.0])})
     for _ in range(rng.randint(0, 2)):
         ops.append({"op": "wrong_dim", "r": rng.randrange(k), "how": rng.choice(["fill", "fill_n", "find_bin", "transform"]),
                     "delta": rng.choice([-1, 1, 2])})
@@ -420,6 +424,56 @@ def execute(plan, ctx):
                               f"returned {ret!r} but find_bin gives {ix_c!r}")
             bags[r_id].append(i)
             used_paths.add(path)
+        elif o == "adaptive_entry":
+            from physt.binnings import FixedWidthBinning
+
+            i = op["i"] % len(pts)
+            sc = float(cfg.get("scale") or 1.0)
+            p = [x * op["stretch"] for x in pts[i]]  # pushed outwards: beyond the two initial radial bins
+            if not any(p):
+                continue
+
+            def fresh():
+                bins = make_bins(cfg)
+                bins[0] = FixedWidthBinning(bin_width=1.0 * sc, bin_count=2, bin_times_min=0, adaptive=True)
+                return K(bins[0]) if len(bins) == 1 else K(binnings=bins)
+            ok_t, t = attempt(tr, p)
+            if not ok_t:
+                raised(r_id, "adaptive", "transform", t)
+                continue
+            tt = float(np.asarray(t).reshape(-1)[0]) if len(make_bins(cfg)) == 1 else np.asarray(t, dtype=float)
+            trio = {}
+            for way in ("fill", "fill_n", "fill_transformed"):
+                hh = fresh()
+                if way == "fill":
+                    ok_w, res_w = attempt(hh.fill, np.asarray(p, dtype=float))
+                elif way == "fill_n":
+                    ok_w, res_w = attempt(hh.fill_n, np.asarray([p], dtype=float))
+                else:
+                    ok_w, res_w = attempt(hh.fill, tt, transformed=True)
+                if not ok_w:
+                    raised(r_id, "adaptive", way, res_w)
+                    trio = None
+                    break
+                trio[way] = hh
+            ctx.fault("adaptive_axis_growth")
+            ctx.ev(r_id, "adaptive_entry", i, "ok" if trio else "raised")
+            ctx.abstract("adaptive_entry", name, trio is not None)
+            if trio:
+                ref = trio["fill_transformed"]
+                for way in ("fill", "fill_n"):
+                    hh = trio[way]
+                    same_bins = all(np.array_equal(np.asarray(a_.bins), np.asarray(b_.bins))
+                                    for a_, b_ in zip(hh.binnings, ref.binnings))
+                    if not same_bins or not arrays_equal(hh.frequencies, ref.frequencies, exact=True) \
+                            or float(hh.missed) != float(ref.missed):
+                        ctx.violation("C15/same-bin-on-every-path", f"C15/adaptive-entry-differs/{name}/{way}",
+                                      f"{K.__name__} with an adaptive radial axis: {way}({p}) gives bins "
+                                      f"{[np.asarray(b_.bins).tolist() for b_ in hh.binnings][0]} contents "
+                                      f"{np.asarray(hh.frequencies).tolist()} missed {float(hh.missed)}, entering the "
+                                      f"transformed coordinates {np.asarray(t).tolist()} gives bins "
+                                      f"{[np.asarray(b_.bins).tolist() for b_ in ref.binnings][0]} contents "
+                                      f"{np.asarray(ref.frequencies).tolist()} missed {float(ref.missed)}"[:1500])
         elif o == "refused_fill":
             how = op["how"]
             p0 = [0.5] * d
